@@ -6,8 +6,9 @@
                                         per call of run_next_* (how many events happen before the
                                         crash, and the adversary's publication order); the operator
                                         removes a directory exactly when the script names it
-     fixed                              false = examine as it is in /repo today; true = with the one-line
-                                        repair (an iteration directory without plate directories is skipped)
+     fixed                              false = examine without, true = with the one-line repair (an iteration
+                                        directory without plate directories is skipped); which one /repo's script is
+                                        is PROVED from its translation: C19_model_is_source_examine_determines_fixed
      completed f                        the steps whose directory holds the marker, in (iteration, plate)
                                         order, each with its files AND the command that produced them
      ideal md bs n k                    the first k steps of the execution that is never interrupted
@@ -32,7 +33,7 @@
    harness/c19.py.  It is proved below under exactly the two hypotheses that exclude them. *)
 From Coq Require Import ZArith List Bool.
 From Batchie Require Import Model.Orchestrate Proofs.C19Base Proofs.C19Canon Proofs.C19Step Proofs.C19Main
-  Proofs.C19Invocation Proofs.C19InvocationThm.
+  Proofs.C19Invocation Proofs.C19InvocationThm Generated.SrcOrchestrate Proofs.C19Source.
 Import ListNotations.
 
 (* For EVERY crash schedule (any number of crashes, at any event of any call), batch size, number of
@@ -301,3 +302,99 @@ Example C19_retro_invocation_returns :
   map (call_returns Retro 2) (r_calls r) = [Some true; Some true; Some true; Some false] /\
   r_end r = IReturned /\ length (r_rest r) = 1%nat.
 Proof. vm_compute. repeat split; reflexivity. Qed.
+
+(* ---- source-translation links: the model IS the script ----
+   src_* (Generated/SrcOrchestrate.v) are whole functions of /repo's nextflow/scripts/batchie.py, re-translated into Gallina
+   by harness/py2gal.py on every run (configurations C19_* in harness/src_functions.py).  A path the script holds is the
+   model value it denotes (the output directory = the tree, a globbed iteration directory = (index, its plate directories),
+   a globbed plate directory = ((i, j), its files)); exceptions live in Orchestrate.sres (SNamed = a RuntimeError naming a
+   job directory, as XNamed).  Trusted: the translator and the primitives listed in harness/c19.py EXPLANATION. *)
+
+(* examine_output_dir_to_determine_current_iteration, the whole function: the two filtered and numerically sorted globs,
+   the loop over iteration directories with its `continue` on one without plate directories, `current_plate_idx = 0`,
+   the enumerate loop with the two raises and the directory they name, the three Optionals, the leaked loop variable
+   plate_dir that get_screen_from_job_output is applied to, the next-step arithmetic and both returns - equal to the
+   model's examine with fixed = true, for EVERY tree and batch size *)
+Theorem C19_model_is_source_examine : forall (f : fs) (bs : Z),
+  src_examine f bs = sres_of_xres (examine true bs f).
+Proof. exact src_examine_is_model. Qed.
+Print Assumptions C19_model_is_source_examine.
+
+(* the translation determines the model parameter: the source is the repaired examine and no other *)
+Theorem C19_model_is_source_examine_determines_fixed : forall fixed,
+  (forall f bs, src_examine f bs = sres_of_xres (examine fixed bs f)) <-> fixed = true.
+Proof. exact src_examine_determines_fixed. Qed.
+Print Assumptions C19_model_is_source_examine_determines_fixed.
+
+(* ... and differs from the unrepaired one on the tree of C19_resume_refuted_empty_iter's witness *)
+Theorem C19_model_is_source_examine_not_unrepaired :
+  src_examine tree_empty_iter 2 <> sres_of_xres (examine false 2 tree_empty_iter).
+Proof. exact src_examine_not_unrepaired. Qed.
+Print Assumptions C19_model_is_source_examine_not_unrepaired.
+
+(* run_next_retrospective_step, the whole function, called with the operator's screen (SInput): it returns
+   (return value, the file-system actions in program order ending in the launch) or raises - SNamed as examine did, or
+   SRaised done why after the actions `done` - exactly as the model's plan says (result_of_plan reads a plan as such a
+   result: PDone = `return False` before anything is touched; a plan ending in a launch = `return True` after it; a plan
+   ending in AFail why = that exception after the three directory actions).  The translated function calls the translated
+   examine; everything it reads from the output directory it reads from the tree as it is at that moment
+   (tree_after f done), in particular the test screen and the thetas are looked for AFTER the job directory has been
+   cleared and re-created. *)
+Theorem C19_model_is_source_run_next_retrospective_step : forall (f : fs) (bs : Z),
+  src_run_next_retrospective_step f SInput bs = result_of_plan Retro bs (plan_of Retro true bs f).
+Proof. exact src_run_next_retro_is_model. Qed.
+Print Assumptions C19_model_is_source_run_next_retrospective_step.
+
+(* run_next_prospective_step, the whole function: the same, its return value is current_plate_idx < batch_size - 1 *)
+Theorem C19_model_is_source_run_next_prospective_step : forall (f : fs) (bs : Z),
+  src_run_next_prospective_step f SInput bs = result_of_plan Prosp bs (plan_of Prosp true bs f).
+Proof. exact src_run_next_prosp_is_model. Qed.
+Print Assumptions C19_model_is_source_run_next_prospective_step.
+
+(* the value handed back to main(): whenever the model's call_returns says that a call returned b (it was not interrupted,
+   the script did not raise, the pipeline's exit status was 0), b is what the translated function returns *)
+Theorem C19_model_is_source_call_returns : forall md bs n f e b,
+  call_returns md bs (snd (attempt md true bs n f e)) = Some b ->
+  exists acts, src_run_next md f bs = SOk (b, acts).
+Proof. exact call_returns_is_source. Qed.
+Print Assumptions C19_model_is_source_call_returns.
+
+(* non-vacuity: on the tree of the refutation witness (batch size 2, steps (0,0), (0,1) complete, iter_1 empty) the translated
+   retrospective step clears and re-creates iter_1/plate_0 and launches it from the advanced screen of (0,1) *)
+Example C19_source_step_on_witness :
+  src_run_next_retrospective_step tree_empty_iter SInput 2
+  = SOk (true, [ARmTree (1, 0); AMkIter 1; AMkPlate (1, 0);
+                ALaunch (1, 0) (LFirst (SFile (0, 1) KAdvanced) (SFile (0, 0) KTraining))])%Z.
+Proof. vm_compute. reflexivity. Qed.
+
+(* ---- the helper functions examine and run_next_* call are the translated ones (src_examine / src_run_next_* above call
+   src_get_screen_from_job_output etc., not a primitive); each equals the model definition the theorems above use.  A glob
+   for one file name under a job directory is a model primitive (at most one match: the <name> level is abstracted); the
+   tests for "no match", the preference of advanced_screen.h5 over training.screen.h5, the [0], the None returns, the
+   loop over the selected_plate files and the ValueError come from the translation. *)
+Theorem C19_model_is_source_get_screen_from_job_output : forall p : plate_path,
+  src_get_screen_from_job_output p = SOk (screen_of (Some p)).
+Proof. exact src_get_screen_is_model. Qed.
+Print Assumptions C19_model_is_source_get_screen_from_job_output.
+
+Theorem C19_model_is_source_validate_job_dir_and_return_meta : forall p : plate_path,
+  src_validate_job_dir_and_return_meta p = SOk (f_meta (snd p)).
+Proof. exact src_validate_is_model. Qed.
+Print Assumptions C19_model_is_source_validate_job_dir_and_return_meta.
+
+(* it globs for training.screen.h5 (as the model's LFirst command says) *)
+Theorem C19_model_is_source_get_test_screen_from_job_output : forall (f : fs) (s : step),
+  src_get_test_screen_from_job_output (f, s) = SOk (if has_training f s then Some (SFile s KTraining) else None).
+Proof. exact src_get_test_screen_is_model. Qed.
+Print Assumptions C19_model_is_source_get_test_screen_from_job_output.
+
+Theorem C19_model_is_source_get_theta_and_dist_chunks : forall (done : list action) (f : fs) (s : step),
+  src_get_theta_and_dist_chunks done (f, s) = if has_thetas_dist f s then SOk s else SRaised done 2.
+Proof. exact src_get_thetas_is_model. Qed.
+Print Assumptions C19_model_is_source_get_theta_and_dist_chunks.
+
+(* None when no selection is recorded: the command then has no --excludes (next_cmd) *)
+Theorem C19_model_is_source_get_selected_plates : forall (f : fs) (i : Z),
+  src_get_selected_plates (f, i) = SOk (match selected_plates f i with [] => None | l => Some l end).
+Proof. exact src_get_selected_is_model. Qed.
+Print Assumptions C19_model_is_source_get_selected_plates.
